@@ -308,3 +308,137 @@ def run(ctx):
             else:
                 chk.violation("R13.5", "var-name:%d" % nvar, "a variable token is not named by exactly the matched text: %s" % term[:200], loc(st["span"]))
     chk.floor("R13.5", "variable token sites", nvar, 2)
+    number_literal(chk, fb)
+
+
+def number_literal(chk, fb, RID="R13.6"):
+    """R13.6: the default number literal.  The documented grammar: the longest prefix of ASCII digits and dots is a number if it
+    has at least one digit-or-dot... precisely: n = length of the prefix of characters that are ASCII digits or '.', d = number of
+    dots in it; literal iff (n > 1 and d < 2) or (n == 1 and d == 0); the literal is exactly that prefix.  NumberMatcher (the
+    default literal matcher) returns exactly this function's answer."""
+    from analysis import rel
+    chk.rule(RID, "number literal: prefix of ASCII digits and dots of length n with d dots is a literal iff (n > 1 and d < 2) or (n == 1 and d == 0), and is exactly text[0..n]; NumberMatcher::is_literal returns it unchanged")
+
+    class P(Policy):
+        max_depth = 3
+
+        def inline(self, fn, args, interp, path):
+            return False
+
+        def inline_closure(self, cp, args, interp, path):
+            return False
+    nt = fb.find_bodies(lambda b: b["kind"] == "Fn" and b["path"] == "parser::is_numeric_text")
+    if len(nt) != 1:
+        chk.violation(RID, "anchor", "parser::is_numeric_text not found")
+        return
+    b = nt[0]
+    where = loc(b["span"])
+    ps = [p for p in Interp(fb, P()).run(b, [Sym("text")]) if p.status != "unreachable"]
+    if any(p.status != "return" for p in ps):
+        chk.unrecognised(RID, "shape", "is_numeric_text: %s" % [(p.status, p.note) for p in ps if p.status != "return"][:2], where)
+        return
+
+    def ref(n, d):
+        return (n > 1 and d < 2) or (n == 1 and d == 0)
+    GRID = [(n, d) for n in range(0, 6) for d in range(0, 6) if d <= n]
+    covered = set()
+    pred = None
+    bad = None
+    for p in ps:
+        F = rel.Facts(p)
+        for e in p.events:
+            if e[0] == "closure":
+                pred = pred or e[1]
+        r = p.result
+        some = isinstance(r, Variant) and r.variant == "Some"
+        if some:
+            pay = rel.cstr(r.fields.get("0"))
+            if not re.match(r"^std::ops::Index::index\(text, Range\{start: 0_usize, end: std::iter::Iterator::count\(std::iter::Iterator::take_while\(core::str::<impl str>::chars\(text\), closure<\{closure#\d+\}>\)\)\}\)$", pay):
+                bad = bad or ("the literal is not text[0..n]: %s" % pay[:140])
+        elif not (isinstance(r, Variant) and r.variant == "None"):
+            bad = bad or ("result is %s" % show(r)[:80])
+            continue
+
+        def val(t, n, d):
+            c = rel.const_int(t)
+            if c is not None:
+                return c
+            s = rel.cstr(t)
+            if s.startswith("std::iter::Iterator::count(std::iter::Iterator::take_while("):
+                return n
+            if s.startswith("mut:std::iter::Iterator::take_while(0_"):
+                return d
+            return None
+        for n, d in GRID:
+            sat = True
+            for a, op, c in F.rel:
+                x, y = val(a, n, d), val(c, n, d)
+                if x is None or y is None:
+                    bad = bad or ("a decision compares an unrecognised quantity: %s %s %s" % (rel.cstr(a)[:60], op, rel.cstr(c)[:60]))
+                    continue
+                if not {"<": x < y, "<=": x <= y, "==": x == y, "!=": x != y}[op]:
+                    sat = False
+            if sat:
+                covered.add((n, d))
+                if some != ref(n, d):
+                    bad = bad or ("a prefix of %d digit/dot characters with %d dot(s) is %s as a number, documented: %s" % (n, d, "accepted" if some else "rejected", "accepted" if ref(n, d) else "rejected"))
+    if not bad and covered != set(GRID):
+        bad = "decision table incomplete: %s not covered" % sorted(set(GRID) - covered)[:4]
+    # the prefix predicate: digit or dot, dots counted
+    okp = False
+    if pred is not None and pred.path in fb.bodies:
+        env = Closure(pred.path, {k: Sym("DOTS") for k in pred.caps})
+        qs = [q for q in Interp(fb, P()).run(fb.bodies[pred.path], [env, Sym("c")]) if q.status != "unreachable"]
+        okp = bool(qs) and all(q.status == "return" for q in qs)
+        for q in qs:
+            if q.status != "return":
+                continue
+            isdot = isdig = None
+            for d in q.decisions:
+                s = show(d[1])
+                if re.match(r"^binop:Eq\(c, '\.'\)$|^binop:Eq\('\.', c\)$", s):
+                    isdot = bool(d[2])
+                elif s == "std::char::methods::<impl char>::is_ascii_digit(c)":
+                    isdig = bool(d[2])
+                else:
+                    okp = False
+            res = q.result
+            rs = show(res)
+            wr = [(show(w[1]), show(w[3])) for w in q.events if w[0] == "write_opaque"]
+            for vd in ([isdot] if isdot is not None else [True, False]):
+                for vg in ([isdig] if isdig is not None else [True, False]):
+                    if rs in ("true", "bool:1"):
+                        out = True
+                    elif rs in ("false", "bool:0"):
+                        out = False
+                    elif re.match(r"^binop:Eq\(c, '\.'\)$", rs):
+                        out = vd
+                    elif rs == "std::char::methods::<impl char>::is_ascii_digit(c)":
+                        out = vg
+                    else:
+                        okp = False
+                        continue
+                    if out != (vd or vg):
+                        okp = False
+            if isdot is None:
+                okp = False
+            elif isdot and wr != [("DOTS", "binop:Add(DOTS, 1_i32)")] and not (len(wr) == 1 and wr[0][0] == "DOTS" and re.match(r"^binop:Add\(DOTS, 1_\w+\)$", wr[0][1])):
+                okp = False
+            elif not isdot and wr:
+                okp = False
+    if bad:
+        chk.violation(RID, "grammar", "is_numeric_text: %s" % bad, where)
+    elif not okp:
+        chk.violation(RID, "prefix", "is_numeric_text: the scanned prefix is not `ASCII digit or '.'` with the dots counted once each", where)
+    else:
+        chk.ok(RID, "number literal grammar", "%d (n, d) cases" % len(GRID), where)
+    # the default matcher is this function
+    nm = fb.find_bodies(lambda b: b["kind"] == "AssocFn" and b.get("name") == "is_literal" and "NumberMatcher" in (b.get("impl_self_ty") or ""))
+    if len(nm) != 1:
+        chk.violation(RID, "anchor:matcher", "NumberMatcher::is_literal not found")
+        return
+    qs = [q for q in Interp(fb, P()).run(nm[0], [Sym("text")]) if q.status != "unreachable"]
+    if len(qs) == 1 and qs[0].status == "return" and show(qs[0].result) == "parser::is_numeric_text(text)":
+        chk.ok(RID, "NumberMatcher::is_literal = is_numeric_text", "", loc(nm[0]["span"]))
+    else:
+        chk.violation(RID, "matcher", "NumberMatcher::is_literal does not return is_numeric_text(text) unchanged: %s" % [show(q.result)[:100] if q.result is not None else q.status for q in qs][:3], loc(nm[0]["span"]))
